@@ -16,6 +16,12 @@ package z80
 // never frame-checked.
 //@ import "context"
 //@ fields CPU States Memory IO RETNHandler RETIHandler Interrupt BreakPoints HALT
+//@ fields States GPR SPR Alternate IFF1 IFF2 IM
+//@ fields GPR AF BC DE HL
+//@ fields SPR IR IX IY SP PC
+//@ fields Register Hi Lo
+//@ fields Interrupt Type Data
+//@ fields im0data start end data base
 
 // ---------------------------------------------------------------- decode + execute
 
